@@ -44,7 +44,13 @@ def read_tables(repo=None):
             out[n.targets[0].id] = ast.literal_eval(n.value)
     # xlat tuple and the modulus of the wrap
     d7 = _method(cls, "decrypt_type_7")
-    out["xlat"] = [int(x) for x in ast.literal_eval(_assigned(d7, "xlat"))]
+    # the key table: the one long literal sequence of integers anywhere in the class (a local of decrypt_type_7 today; a class
+    # constant after a harmless refactoring)
+    tabs = [n for n in ast.walk(cls) if isinstance(n, (ast.Tuple, ast.List)) and len(n.elts) >= 20
+            and all(isinstance(e, ast.Constant) and type(e.value) is int for e in n.elts)]
+    if len(tabs) != 1:
+        raise KeyError("expected exactly one integer table in CiscoPassword, found %d" % len(tabs))
+    out["xlat"] = [int(x) for x in ast.literal_eval(tabs[0])]
     mods = [n.right.value for n in ast.walk(d7)
             if isinstance(n, ast.BinOp) and isinstance(n.op, ast.Mod) and isinstance(n.right, ast.Constant) and isinstance(n.right.value, int)]
     if len(mods) != 1:
